@@ -39,7 +39,7 @@ from harness.common import (MachineryError, Verdict, import_trimesh, pmap, seed,
 PROP = "C13"
 CFG = "INIT Init\nNEXT Next\nINVARIANT Report\nINVARIANT RefSane\nCHECK_DEADLOCK FALSE\n"
 
-DT = {"uint8": np.uint8, "int8": np.int8, "uint16": np.uint16, "int64": np.int64}
+DT = {"uint8": np.uint8, "int8": np.int8, "uint16": np.uint16, "int32": np.int32, "int64": np.int64}
 DTMAX = {"uint8": 255, "int8": 127, "uint16": 65535, "int64": 0}     # 0 = unbounded in the spec
 LONG = {"uint8": [1, 2, 254, 255, 256, 510, 511],
         "int8": [1, 2, 126, 127, 128, 254, 255],
@@ -209,9 +209,11 @@ def gen_brle_cases(chunk):
     rs = np.random.RandomState(seed() + 131)
     for e, opts in chunk:
         dts = opts["dtypes"]
-        b = np.array(e, dtype=np.int64)
+        store = opts.get("store", "int64")          # dtype the encoding is STORED in
+        narrow = store != "int64"
+        b = np.array(e, dtype=DT[store])
         n = int(sum(e))
-        base = {"e": e}
+        base = {"e": e, "store": store} if narrow else {"e": e}
         R.call("brle_to_dense", base, lambda: proj_dense(rl.brle_to_dense(b)))
         if opts.get("vals"):
             R.call("brle_to_dense", dict(base, vals=[7, 9]), lambda: proj_dense(rl.brle_to_dense(b, [7, 9])))
@@ -223,7 +225,7 @@ def gen_brle_cases(chunk):
             idx = ints(rl.brle_to_sparse(b))
             return {"ni": len(idx), "tri": compress_sparse(idx, [1] * len(idx))}
         R.call("brle_to_sparse", base, sparse)
-        R.call("merge_brle_lengths", dict(base, max=0), lambda: ints(rl.merge_brle_lengths(list(e))))
+        R.call("merge_brle_lengths", dict(base, max=0), lambda: ints(rl.merge_brle_lengths(b if narrow else list(e))))
 
         def strip():
             enc, (s, t) = rl.brle_strip(b)
@@ -234,7 +236,7 @@ def gen_brle_cases(chunk):
             R.call("brle_to_rle", dict(base, max=DTMAX[dn], dtype=dn), lambda: ints(rl.brle_to_rle(b, dtype=dt)))
             R.call("brle_to_brle", dict(base, max=DTMAX[dn], dtype=dn), lambda: ints(rl.brle_to_brle(b, dtype=dt)))
             R.call("split_long_brle_lengths", dict(base, max=DTMAX[dn], dtype=dn),
-                   lambda: ints(rl.split_long_brle_lengths(list(e), dtype=dt)))
+                   lambda: ints(rl.split_long_brle_lengths(b if narrow else list(e), dtype=dt)))
         if opts.get("elementwise") and n > 0:
             exh = n <= opts.get("exh_n", 0)
             for k, idx in enumerate(index_lists(n, rs, exh) if not opts.get("long") else opts["idx"]):
@@ -263,10 +265,12 @@ def gen_rle_cases(chunk):
     rs = np.random.RandomState(seed() + 137)
     for e, opts in chunk:
         dts = opts["dtypes"]
-        r = np.array(e, dtype=np.int64)
+        store = opts.get("store", "int64")          # dtype the encoding is STORED in
+        narrow = store != "int64"
+        r = np.array(e, dtype=DT[store])
         vals, cnts = e[::2], e[1::2]
         n = int(sum(cnts))
-        base = {"e": e}
+        base = {"e": e, "store": store} if narrow else {"e": e}
         R.call("rle_to_dense", base, lambda: proj_dense(rl.rle_to_dense(r)))
         R.call("rle_length", base, lambda: int(rl.rle_length(r)))
         R.call("rle_reverse", base, lambda: ints(rl.rle_reverse(r)))
@@ -278,7 +282,7 @@ def gen_rle_cases(chunk):
         R.call("rle_to_sparse", base, sparse)
 
         def merge():
-            v, c = rl.merge_rle_lengths(list(vals), list(cnts))
+            v, c = rl.merge_rle_lengths(r[::2] if narrow else list(vals), r[1::2] if narrow else list(cnts))
             v, c = ints(v), ints(c)
             if len(v) != len(c):
                 raise ValueError("values and lengths differ in length")
@@ -294,7 +298,8 @@ def gen_rle_cases(chunk):
             R.call("rle_to_rle", dict(base, max=DTMAX[dn], dtype=dn), lambda: ints(rl.rle_to_rle(r, dtype=dt)))
 
             def split():
-                v, c = rl.split_long_rle_lengths(np.array(vals, dtype=np.int64), list(cnts), dtype=dt)
+                v, c = rl.split_long_rle_lengths(r[::2] if narrow else np.array(vals, dtype=np.int64),
+                                                 r[1::2] if narrow else list(cnts), dtype=dt)
                 v, c = ints(v), ints(c)
                 if len(v) != len(c):
                     raise ValueError("values and lengths differ in length")
@@ -445,7 +450,49 @@ def runlength_work(tier):
             for cnts in itertools.product((0, mx, mx + 1), repeat=3):
                 runs = [[vals[j], cnts[j]] for j in range(3)]
                 rle.append(([x for p in runs for x in p], long_opts(runs, dn, elementwise and big, rs)))
-    return brle, rle, dense
+    nb, nr = narrow_work(tier, rs)
+    return brle + nb, rle + nr, dense
+
+
+NARROW = {"uint8": 255, "int8": 127, "uint16": 65535, "int32": 255}     # stored dtype -> largest count used
+TARGETS = ["uint8", "int8", "uint16", "int64"]
+
+
+def narrow_work(tier, rs):
+    """encodings STORED in a narrow integer dtype (what loading a binvox file produces), with counts
+    up to the stored maximum so that merged runs (255 + 45 of one value, 255, 0, 45 with a zero-length
+    separator) and the total length exceed what the stored dtype can hold.  int32 cannot be
+    overflowed with arrays that fit in memory and is exercised with the uint8 counts."""
+    big = tier == "thorough"
+    brle, rle = [], []
+    k = 0
+    for store, mx in NARROW.items():
+        # a 65535-run split for int8 is a 1000-count encoding: keep the targets of uint16 data wide
+        TG = ["uint16", "int64"] if store == "uint16" else TARGETS
+        C = [0, 1, 2, 45, mx - 1, mx]
+        elementwise = store != "uint16"
+        encs = [list(e) for n in (1, 2, 3) for e in itertools.product(C, repeat=n)]
+        encs += [list(e) for e in itertools.product((0, 45, mx), repeat=4)]
+        if store == "int32" and not big:
+            encs = encs[::3]
+        for e in encs:
+            k += 1
+            runs = [[j % 2, e[j]] for j in range(len(e))]
+            o = long_opts(runs, "uint8" if mx < 65535 else "uint16", elementwise and (big or len(e) <= 3), rs)
+            o.update(store=store, dtypes=TG if big else sorted({TG[k % len(TG)], TG[(k + 1 + k // 4) % len(TG)]}))
+            brle.append((e, o))
+        pairs = [[[v, c] for v, c in zip(vs, cs)] for n in (1, 2) for vs in itertools.product((0, 1, 2), repeat=n)
+                 for cs in itertools.product(C, repeat=n)]
+        pairs += [[[v, c] for v, c in zip(vs, cs)] for vs in itertools.product((0, 1), repeat=3)
+                  for cs in itertools.product((0, 45, mx), repeat=3)]
+        if store == "int32" and not big:
+            pairs = pairs[::3]
+        for runs in pairs:
+            k += 1
+            o = long_opts(runs, "uint8" if mx < 65535 else "uint16", elementwise and (big or len(runs) <= 2 or k % 2 == 0), rs)
+            o.update(store=store, dtypes=TG if big else sorted({TG[k % len(TG)], TG[(k + 1 + k // 4) % len(TG)]}))
+            rle.append(([x for p in runs for x in p], o))
+    return brle, rle
 
 
 # ------------------------------------------------------------------ part 2: encoding trees
@@ -707,6 +754,131 @@ def encoding_work(tier):
     return work
 
 
+# ------------------------------------------------------------------ part 2b: 1-D encodings on stored data
+def gen_enc1d_cases(chunk):
+    """RunLengthEncoding / BinaryRunLengthEncoding built directly on run-length data stored in a given
+    integer dtype (as binvox loading does), viewed through flip / reshape / flat; everything is
+    recorded at run level (dense results as maximal runs)."""
+    trimesh = import_trimesh()
+    enc = trimesh.voxel.encoding
+    out = []
+    for kind, e, store, view, opts in chunk:
+        data = np.array(e, dtype=DT[store])
+        binary = kind == "brle" or max(e[::2], default=0) <= 1
+        rec = {"fn": "enc1d", "kind": kind, "e": list(e), "store": store, "view": list(view), "reads": [],
+               "classes": [], "tree": []}
+        try:
+            with time_limit("enc1d.build"):
+                if kind == "rle":
+                    x = enc.RunLengthEncoding(data, dtype=bool if binary else np.int64)
+                else:
+                    x = enc.BinaryRunLengthEncoding(data)
+                rec["classes"].append(type(x).__name__)
+                for o in view:
+                    x = apply_op(x, o)
+                    rec["classes"].append(type(x).__name__)
+            rec["exc"] = ""
+            rec["tree"], _ = tree_of(x, enc.Encoding)
+        except SkipCall:
+            continue
+        except Exception as ex:  # noqa
+            rec["exc"] = type(ex).__name__
+            out.append(rec)
+            continue
+        shape = opts["shape"]
+        nd = len(shape)
+        R = rec["reads"]
+        do_read(R, "dense", {}, lambda: (lambda d: {"shape": [int(v) for v in d.shape], "res": proj_dense(d.reshape(-1))})(np.asarray(x.dense)))
+        do_read(R, "shape", {}, lambda: {"v": [int(v) for v in x.shape]})
+        do_read(R, "size", {}, lambda: {"v": ints([x.size])[0]})
+        do_read(R, "sum", {}, lambda: {"v": ints([x.sum])[0]})
+        do_read(R, "is_empty", {}, lambda: {"v": int(bool(x.is_empty))})
+        for gl in opts["idx"]:
+            do_read(R, "gather_nd", {"arg": gl},
+                    lambda: {"v": ints(x.gather_nd(np.array(gl, dtype=np.int64).reshape((-1, nd))))})
+        do_read(R, "get_value", {"arg": opts["idx"][0][:4]},
+                lambda: {"v": [ints([x.get_value(np.array(ix, dtype=np.int64))])[0] for ix in opts["idx"][0][:4]]})
+        if nd == 1:
+            if hasattr(x, "gather"):
+                gl = opts["idx"][1]
+                do_read(R, "gather", {"arg": gl, "form": "array"},
+                        lambda: {"v": ints(x.gather(np.array([g[0] for g in gl], dtype=np.int64)))})
+
+            def sp():
+                idx = ints(x.sparse_indices)
+                v = ints(x.sparse_values)
+                return {"ni": len(idx), "nv": len(v), "tri": compress_sparse(idx, v)}
+            do_read(R, "sparse", {}, sp)
+            for mr in opts["masks"]:
+                do_read(R, "mask", {"mr": mr}, lambda: {"res": proj_dense(np.asarray(x.mask(expand_runs(mr, bool))).astype(np.int64))})
+
+            def st():
+                t, pad = x.stripped
+                return {"res": proj_dense(np.asarray(t.dense).reshape(-1)), "pad": [ints(p) for p in np.asarray(pad)]}
+            do_read(R, "stripped", {}, st)
+            for dn in opts["targets"]:
+                do_read(R, "rld", {"max": DTMAX[dn], "dtype": dn}, lambda: {"v": ints(x.run_length_data(dtype=DT[dn]))})
+                if binary:
+                    do_read(R, "brld", {"max": DTMAX[dn], "dtype": dn}, lambda: {"v": ints(x.binary_run_length_data(dtype=DT[dn]))})
+        out.append(rec)
+    return out
+
+
+def enc1d_work(tier):
+    big = tier == "thorough"
+    rs = np.random.RandomState(seed() + 211)
+    work = []
+    k = 0
+    for store, mx in NARROW.items():
+        C = [0, 2, 45, mx]
+        TG = ["uint16", "int64"] if store == "uint16" else TARGETS
+        kmax = 2 if store == "uint16" else 3
+        items = []
+        for n in range(1, kmax + 1):
+            for e in itertools.product(C, repeat=n):
+                items.append(("brle", list(e), [[j % 2, e[j]] for j in range(n)]))
+        if kmax == 3:
+            for e in itertools.product((0, 45, mx), repeat=4):
+                items.append(("brle", list(e), [[j % 2, e[j]] for j in range(4)]))
+        for n in (1, 2):
+            for vs in itertools.product((0, 1, 2), repeat=n):
+                for cs in itertools.product(C, repeat=n):
+                    runs = [[v, c] for v, c in zip(vs, cs)]
+                    items.append(("rle", [x for p in runs for x in p], runs))
+        if kmax == 3:
+            for vs in itertools.product((0, 1), repeat=3):
+                for cs in itertools.product((0, 45, mx), repeat=3):
+                    runs = [[v, c] for v, c in zip(vs, cs)]
+                    items.append(("rle", [x for p in runs for x in p], runs))
+        if store == "int32" and not big:
+            items = items[::3]
+        for kind, e, runs in items:
+            n = sum(c for _, c in runs)
+            if n == 0:
+                continue                      # zero-length arrays are left unconstrained
+            k += 1
+            two = [2, n // 2] if n % 2 == 0 else [1, n]
+            views = [[], [{"op": "flip", "axes": [0], "form": "int"}], [{"op": "flat"}],
+                     [{"op": "reshape", "shape": two}], [{"op": "reshape", "shape": two}, {"op": "flat"}],
+                     [{"op": "flip", "axes": [0], "form": "int"}, {"op": "reshape", "shape": two}]]
+            pick = views if big else [views[0], views[1 + k % 5]]
+            lo = long_opts(runs, "uint8" if mx < 65535 else "uint16", store != "uint16", rs)
+            pts = long_points(runs)
+            for view in pick:
+                shape = [n]
+                for o in view:
+                    if o["op"] == "reshape":
+                        shape = o["shape"]
+                    elif o["op"] == "flat":
+                        shape = [n]
+                unr = lambda p: [p] if len(shape) == 1 else [p // shape[1], p % shape[1]]  # noqa
+                sel = [pts[j] for j in rs.randint(0, len(pts), size=3)]
+                opts = {"shape": shape, "idx": [[unr(p) for p in pts], [unr(p) for p in pts[::-1]], [unr(p) for p in sel], [unr(pts[-1])]],
+                        "masks": lo.get("masks", [])[:2], "targets": TG if big else sorted({TG[k % len(TG)], "uint8" if store != "uint16" else "int64"})}
+                work.append((kind, e, store, view, opts))
+    return work
+
+
 # ------------------------------------------------------------------ part 3: VoxelGrid
 def snap(x, scale):
     """float array * scale -> python ints, residual test (machinery error if not on the lattice)"""
@@ -806,6 +978,27 @@ def gen_grid_cases(chunk):
                 g = voxel.VoxelGrid(make_base(enc, kind, arr), transform=mat4(M4, t4))
                 return {"count": int(g.filled_count), "vol64": int(snap([g.volume], 64)[0])}
             add(base, vol)
+        elif what == "reload":
+            _, shape, dr, L4, t4, order = item
+            arr = expand_runs(dr, bool).reshape(shape)
+            M4 = np.diag([L4 // (n - 1) for n in shape])
+            base = {"fn": "grid_reload", "shape": list(shape), "dr": dr, "M4": [ints(r) for r in M4], "t4": list(t4),
+                    "axis_order": order}
+
+            def reload():
+                g = voxel.VoxelGrid(enc.DenseEncoding(arr.copy()), transform=mat4(M4, t4))
+                g2 = trimesh.exchange.binvox.load_binvox(io.BytesIO(g.export(file_type="binvox", axis_order=order)),
+                                                         axis_order=order)
+                centres = g.indices_to_points(np.array(list(np.ndindex(*shape)), dtype=np.int64))
+                r = {"rshape2": [int(v) for v in g2.shape], "m2": proj_dense(np.asarray(g2.matrix).reshape(-1)),
+                     "count2": int(g2.filled_count), "filled2": proj_dense(np.asarray(g2.is_filled(centres)).reshape(-1))}
+                g3 = trimesh.exchange.binvox.load_binvox(io.BytesIO(g2.export(file_type="binvox", axis_order=order)),
+                                                         axis_order=order)
+                T = np.asarray(g3.transform)
+                r.update({"rshape3": [int(v) for v in g3.shape], "m3": proj_dense(np.asarray(g3.matrix).reshape(-1)),
+                          "rM4": [ints(row) for row in snap(T[:3, :3], 4)], "rt4": ints(snap(T[:3, 3], 4))})
+                return r
+            add(base, reload)
         elif what == "binvox_points":
             _, shape, data, kind, M4, t4, order = item
             arr = np.array(data, dtype=bool).reshape(shape)
@@ -877,6 +1070,20 @@ def grid_work(tier):
                 kinds = BASES if (big or size <= 8 and ai % 4 == 0) else [BASES[ai % 4]]
                 for kind in kinds:
                     work.append(("binvox", shape, data, kind, L4, [4, -2, 9] if ai % 2 else [0, 0, 0], order))
+    # grids of more than 255 cells exported, loaded (uint8 run-length data, runs split at 255) and
+    # exported again: runs and totals beyond the stored count dtype
+    for shape in ((8, 8, 8), (7, 7, 7)) + (((3, 9, 11), (16, 8, 5)) if big else ()):
+        size = int(np.prod(shape))
+        slab = shape[1] * shape[2]
+        descr = [[[0, size]], [[1, size]], [[0, 300], [1, size - 300]], [[1, 300], [0, size - 300]],
+                 [[0, 255], [1, 45], [0, size - 300]], [[1, 255], [0, 1], [1, size - 256]],
+                 [[0, 256], [1, size - 256]], [[0, slab * 4], [1, 3], [0, size - slab * 4 - 3]],
+                 [[1, slab * 4 + 1], [0, size - slab * 4 - 1]], [[0, size - 1], [1, 1]], [[1, 1], [0, size - 1]],
+                 [[0, 254], [1, 1], [0, 255], [1, size - 510]]]
+        for di, dr in enumerate(d for d in descr if all(c >= 0 for _, c in d)):
+            for order in ("xzy", "xyz"):
+                L4 = 4 * int(np.lcm.reduce([n - 1 for n in shape]))
+                work.append(("reload", shape, dr, L4, [4, -2, 9] if di % 2 else [0, 0, 0], order))
     # mirrored grids (negative scale on some axes): world positions of the filled cells must survive
     arrays = list(itertools.product((0, 1), repeat=8))
     for ai, data in enumerate(arrays if big else arrays[seed() % 4::4]):
@@ -896,6 +1103,16 @@ def grid_work(tier):
 LAZY = ("FlattenedEncoding", "ShapedEncoding", "TransposedEncoding", "FlippedEncoding")
 RL = ("RunLengthEncoding", "BinaryRunLengthEncoding")
 DEVIATIONS = {
+    "NarrowCountMergeOverflow": "merge_rle_lengths / merge_brle_lengths add counts as numpy scalars of the stored dtype: "
+                                "runs of one value split at 255 wrap around when merged (rle_to_rle, brle_to_brle, "
+                                "brle_to_rle, run_length_data, re-export of a loaded binvox)",
+    "NarrowCountRleToBrleOverflow": "rle_to_brle adds counts of equal neighbouring values in the stored dtype",
+    "NarrowCountGatherOverflow": "sorted_rle_gather_1d / sorted_brle_gather_1d accumulate the run start in the stored dtype: "
+                                 "gathers (and VoxelGrid.is_filled) past index 255 of uint8 data raise IndexError or are wrong",
+    "NarrowCountStripOverflow": "rle_strip / brle_strip sum the stripped zero runs in the stored dtype (wrong padding)",
+    "NarrowSplitRleFloorDiv": "split_long_rle_lengths divides narrow lengths by a maximum that does not fit their dtype "
+                              "(OverflowError under numpy 2)",
+    "RleSumNarrowProduct": "RunLengthEncoding.sum multiplies value and count in the stored dtype before summing",
     "BrleReverseEvenLength": "runlength.brle_reverse returns an empty encoding when the input has even length or ends "
                              "with a zero count (so BinaryRunLengthEncoding.flip empties any data ending in True)",
     "BrleToSparseNoTrueRun": "runlength.brle_to_sparse raises ValueError when the encoding has no True-run slot "
@@ -939,9 +1156,32 @@ DEVIATIONS = {
 }
 
 
+NARROW_MERGE = ("merge_rle_lengths", "merge_brle_lengths", "rle_to_rle", "brle_to_brle", "brle_to_rle")
+NARROW_GATHER = ("rle_gather_1d", "brle_gather_1d", "sorted_rle_gather_1d", "sorted_brle_gather_1d")
+
+
+def attribute_narrow_fn(c, clause):
+    """run-length data stored in a narrow integer dtype: sums of counts computed in that dtype"""
+    fn = c["fn"]
+    out = []
+    if fn == "rle_to_brle":
+        out.append("NarrowCountRleToBrleOverflow")
+    if fn in NARROW_MERGE or (fn == "rle_to_brle" and c.get("dtype") != "None"):
+        out.append("NarrowCountMergeOverflow")
+    if fn in NARROW_GATHER:
+        out.append("NarrowCountGatherOverflow")
+    if fn in ("rle_strip", "brle_strip") and clause.startswith("padding_"):
+        out.append("NarrowCountStripOverflow")
+    if fn in ("split_long_rle_lengths", "rle_to_rle", "brle_to_rle") and clause == "raised_OverflowError":
+        out.insert(0 if fn == "split_long_rle_lengths" else len(out), "NarrowSplitRleFloorDiv")
+    return out
+
+
 def attribute_fn(c, clause):
     fn = c["fn"]
     e = c.get("e", [])
+    if c.get("store", "int64") != "int64":
+        return attribute_narrow_fn(c, clause)
     if fn == "brle_reverse" and (len(e) % 2 == 0 or e[-1] == 0) and clause == "denotes_reversed_sequence" \
             and c["res"] == []:
         return ["BrleReverseEvenLength"]       # predicted wrong value: the empty encoding
@@ -1031,6 +1271,27 @@ def attribute_enc(rec, q, clause):
     return c + taints
 
 
+def attribute_enc1d(rec, q, clause):
+    """1-D run-length encodings built on narrowly stored data (every record of this kind is)"""
+    if q is None:
+        return []
+    r, top = q["r"], rec["tree"][0]
+    out = []
+    if r in ("gather_nd", "gather", "get_value"):
+        out.append("NarrowCountGatherOverflow")
+    if r == "stripped" and top in RL and clause == "stripped_padding":
+        out.append("NarrowCountStripOverflow")
+    if r == "brld" and top == "RunLengthEncoding":
+        out.append("NarrowCountRleToBrleOverflow")
+    if r in ("rld", "brld") and top in RL:
+        out.append("NarrowCountMergeOverflow")
+        if clause == "raised_OverflowError":
+            out.append("NarrowSplitRleFloorDiv")
+    if r == "sum" and rec["kind"] == "rle":
+        out.append("RleSumNarrowProduct")
+    return out
+
+
 def attribute_grid(c, clause):
     if c["fn"] == "grid_volume" and clause == "volume_is_filled_count_times_cell_volume":
         M = np.array(c["M4"], dtype=np.int64)
@@ -1043,6 +1304,12 @@ def attribute_grid(c, clause):
             return ["RleToSparseEmptyReturnsLists"]
         if c["base"] in ("rle", "brle") and c["axis_order"] == "xyz" and clause == "raised_ValueError":
             return ["RunLengthDataDtypeNotHonoured"]   # run_length_data(dtype=uint8) comes back int64
+    if c["fn"] == "grid_reload":
+        # the loaded grid holds uint8 run-length data
+        if clause == "raised_IndexError" or clause == "loaded_grid_is_filled_equals_dense_at_cell":
+            return ["NarrowCountGatherOverflow"]
+        if clause == "binvox_reexport_of_loaded_grid_keeps_filled_cells":
+            return ["NarrowCountMergeOverflow"]
     if c["fn"] == "grid_binvox_points" and clause == "binvox_filled_cells_keep_their_position" and \
             any(c["M4"][a][a] < 0 for a in range(3)):
         return ["BinvoxNegativeScaleTranslation"]
@@ -1087,6 +1354,11 @@ def main(argv):
     def enc_round(k, nr):
         return [c for res in pmap(gen_enc_cases, enc_work[k::nr], chunk=100) for c in res]
 
+    e1_work = enc1d_work(tier)
+
+    def enc1d_round():
+        return [c for res in pmap(gen_enc1d_cases, e1_work, chunk=40) for c in res]
+
     def grid_round():
         return [c for res in pmap(gen_grid_cases, g_work, chunk=60) for c in res]
 
@@ -1094,14 +1366,14 @@ def main(argv):
     # interleaved so that every round meets every shape / base / chain length
     nr = max(1, -(-len(enc_work) // ROUND_TREES))
     if nr == 1:
-        rounds = [lambda: fn_round() + enc_round(0, 1) + grid_round()]
+        rounds = [lambda: fn_round() + enc_round(0, 1) + enc1d_round() + grid_round()]
     else:
-        rounds = [fn_round] + [lambda k=k: enc_round(k, nr) for k in range(nr)] + [grid_round]
+        rounds = [fn_round] + [lambda k=k: enc_round(k, nr) for k in range(nr)] + [lambda: enc1d_round() + grid_round()]
 
     count = {"fn": 0, "enc": 0, "grid": 0}
     byfn, by_dev, by_clause_dev = {}, {}, {}
     unattributed, unattributed_examples, samples = {}, [], []
-    reads = states = rejected = 0
+    reads = states = rejected = narrow_records = 0
     nxt = 0
     gen_wall = tlc_wall = 0.0
     for rk, gen in enumerate(rounds):
@@ -1113,14 +1385,16 @@ def main(argv):
         for c in cases:
             c["id"] = nxt
             owner[nxt] = (c, None)
-            if c["fn"] == "enc":
+            if c["fn"] in ("enc", "enc1d"):
                 for k, q in enumerate(c["reads"]):
                     owner[nxt + 1 + k] = (c, q)
                 nxt += len(c["reads"])
                 reads += len(c["reads"])
             nxt += 1
             byfn[c["fn"]] = byfn.get(c["fn"], 0) + 1
-            count["enc" if c["fn"] == "enc" else "grid" if c["fn"].startswith("grid_") else "fn"] += 1
+            count["enc" if c["fn"] in ("enc", "enc1d") else "grid" if c["fn"].startswith("grid_") else "fn"] += 1
+            if c.get("store", "int64") != "int64" or c["fn"] == "grid_reload":
+                narrow_records += 1
         if not cases:
             continue
         if nxt >= 2 ** 31:
@@ -1134,7 +1408,13 @@ def main(argv):
             if cid not in owner:
                 raise MachineryError(f"TLC rejected unknown id {cid}")
             c, q = owner[cid]
-            if c["fn"] == "enc":
+            if c["fn"] == "enc1d":
+                cands = attribute_enc1d(c, q, clause)
+                detail = {k: c[k] for k in ("kind", "e", "store", "view", "tree", "exc")}
+                name = "enc1d.build" if q is None else "enc1d." + q["r"]
+                if q is not None:
+                    detail["read"] = q
+            elif c["fn"] == "enc":
                 cands = attribute_enc(c, q, clause)
                 detail = {k: c[k] for k in ("base", "shape", "data", "chain", "tree", "exc")}
                 name = "enc.build" if q is None else "enc." + q["r"]
@@ -1156,6 +1436,8 @@ def main(argv):
                     unattributed_examples.append({"clause": key[0], "detail": detail})
     if count["fn"] < 20000 or count["enc"] < 5000 or count["grid"] < 300 or reads < 50000:
         raise MachineryError(f"enumeration too small: {count}, {reads} reads")
+    if narrow_records < 20000:
+        raise MachineryError(f"only {narrow_records} records with narrowly stored run-length data")
     cov = {
         "states": states, "transitions": states,
         "traces_validated_against_impl": sum(count.values()),
@@ -1163,6 +1445,7 @@ def main(argv):
         "encoding_trees": count["enc"],
         "encoding_reads": reads,
         "grid_cases": count["grid"],
+        "narrow_stored_records": narrow_records,
         "cases_per_function": byfn,
         "rejected": rejected,
         "rejected_by_deviation": by_dev,
